@@ -84,6 +84,8 @@ class Ctx:
 
     def violation(self, witness: dict):
         """Record a violation witness; capped per mechanism so known findings cannot crowd out fresh ones."""
+        if getattr(self, "ambient", None):
+            witness.setdefault("ambient", self.ambient)
         key = None
         if self.classify is not None:
             try:
@@ -126,6 +128,13 @@ def shard_main(argv: list[str]) -> int:
         cov = coverage.start()
         mod = prop_module(pid)
         ctx.classify = getattr(mod, "classify", None)
+        if ctx.nshards > 1 and ctx.shard == ctx.nshards - 1:
+            # ambient process configuration: the last shard of every check runs the way a developer's process does,
+            # with DEBUG logging effective for every logger (no output: a null handler)
+            import logging
+            logging.basicConfig(level=logging.DEBUG, handlers=[logging.NullHandler()], force=True)
+            ctx.observe("ambient:debug-logging-shard")
+            ctx.ambient = "debug-logging"
         mod.run_shard(ctx)
     except env.EnvError as e:
         ctx.inconc(f"environment: {e}")
@@ -338,6 +347,14 @@ def run_replay(pid: str, path: str) -> int:
     with open(path) as f:
         doc = json.load(f)
     w = doc["witness"]
+    if w.get("interpreter") == "python -O" and __debug__:
+        # the witness was observed in an interpreter started with -O: replay it in one
+        r = subprocess.run([sys.executable, "-O", "-X", "faulthandler", "-m", "rv.cli", pid, "quick", "--replay", path],
+                           cwd=VERIF, env=dict(os.environ, PYTHONPATH=VERIF, PYTHONDONTWRITEBYTECODE="1"))
+        return r.returncode
+    if w.get("ambient") == "debug-logging":
+        import logging
+        logging.basicConfig(level=logging.DEBUG, handlers=[logging.NullHandler()], force=True)
     res = mod.replay(w)
     if res:
         print(f"VIOLATION property={pid} replay={path}")
